@@ -66,6 +66,11 @@ type RefReplica struct {
 	// The properties demand durability of saves, not of removals, so after a
 	// crash a removed replica may be back (wholly or record by record).
 	PreRemoval *RefReplica
+	// MaxEver is the highest entry index ever saved (kept across removal).
+	MaxEver uint64
+	// ProbeAll: the log is the (empty) log of a removed replica; every index
+	// up to MaxEver is probed (set on mixtures only).
+	ProbeAll bool
 }
 
 // NewRefStore creates an empty model.
@@ -192,6 +197,9 @@ func (r *RefReplica) ApplyUpdate(ud pb.Update) {
 		r.Opt = nil
 		r.Ents = append(append([]pb.Entry(nil), r.Ents[:f-r.Floor-1]...), ud.EntriesToSave...)
 		r.Last = ud.EntriesToSave[len(ud.EntriesToSave)-1].Index
+		if r.Last > r.MaxEver {
+			r.MaxEver = r.Last
+		}
 	}
 	r.check()
 }
@@ -222,7 +230,7 @@ func (r *RefReplica) ApplyRemoveNodeData() {
 	if !r.Removed {
 		pre = r.Clone()
 	}
-	*r = RefReplica{ID: id, Removed: true, Ghost: map[uint64]pb.Entry{}, PreRemoval: pre}
+	*r = RefReplica{ID: id, Removed: true, Ghost: map[uint64]pb.Entry{}, PreRemoval: pre, MaxEver: r.MaxEver}
 }
 
 // ApplyImport applies ImportSnapshot.
@@ -238,7 +246,7 @@ func (r *RefReplica) ApplyImport(ss pb.Snapshot) {
 			delete(ghost, k)
 		}
 	}
-	*r = RefReplica{ID: id, Touched: true, Ghost: ghost}
+	*r = RefReplica{ID: id, Touched: true, Ghost: ghost, MaxEver: r.MaxEver}
 	r.Snap = ss
 	r.WrittenSnap = []uint64{ss.Index}
 	r.Floor = ss.Index
